@@ -292,6 +292,10 @@ func cmdC12Offset(r *RNG, n int, e *Emitter) {
 		d1 := []float64{2, -2, 5, 0.3, -1}[r.Intn(5)]
 		d2 := []float64{3, -1, 0.2, 4}[r.Intn(4)]
 		jt := clip.JoinType(r.Intn(4))
+		jt2 := jt
+		if r.Bool() {
+			jt2 = clip.JoinType(r.Intn(4)) // the second group may use another join type
+		}
 		co := clip.NewClipperOffset(2, 0, false, false)
 		co.AddPaths(g1, jt, clip.Polygon)
 		var a, b, c clip.Paths64
@@ -300,7 +304,7 @@ func cmdC12Offset(r *RNG, n int, e *Emitter) {
 		}
 		co.Execute64(d1, &a)
 		co.Execute64(d2, &b) // an earlier execution must not influence this one
-		co.AddPaths(g2, jt, clip.Polygon)
+		co.AddPaths(g2, jt2, clip.Polygon)
 		co.Execute64(d1, &c)
 		f1 := clip.NewClipperOffset(2, 0, false, false)
 		f1.AddPaths(g1, jt, clip.Polygon)
@@ -311,9 +315,9 @@ func cmdC12Offset(r *RNG, n int, e *Emitter) {
 		f2.Execute64(d2, &fb)
 		f3 := clip.NewClipperOffset(2, 0, false, false)
 		f3.AddPaths(g1, jt, clip.Polygon)
-		f3.AddPaths(g2, jt, clip.Polygon)
+		f3.AddPaths(g2, jt2, clip.Polygon)
 		f3.Execute64(d1, &fc)
-		desc := map[string]any{"engine": "ClipperOffset", "g1": pathsJSON(g1), "g2": pathsJSON(g2), "d1": d1, "d2": d2, "jt": int(jt)}
+		desc := map[string]any{"engine": "ClipperOffset", "g1": pathsJSON(g1), "g2": pathsJSON(g2), "d1": d1, "d2": d2, "jt": int(jt), "jt2": int(jt2)}
 		bad := ""
 		switch {
 		case !reflect.DeepEqual(normP(a), normP(fa)):
